@@ -68,8 +68,9 @@ pub enum Flavor {
 }
 
 /// Sizes at and around common thresholds.
-pub const INTERESTING_SIZES: [usize; 27] = [
-    15, 16, 17, 31, 32, 33, 63, 64, 65, 127, 128, 129, 255, 256, 257, 511, 512, 513, 1023, 1024, 1025, 4095, 4096, 4097, 8191, 8192, 8193,
+pub const INTERESTING_SIZES: [usize; 33] = [
+    15, 16, 17, 31, 32, 33, 63, 64, 65, 127, 128, 129, 255, 256, 257, 511, 512, 513, 1023, 1024, 1025, 4095, 4096, 4097, 8191, 8192, 8193, 16384, 32768,
+    65535, 65536, 65537, 69999,
 ];
 
 /// Per-run swarm configuration of the generator.
